@@ -6,20 +6,19 @@ package state
 //verif:property C15
 //verif:bound slot arithmetic: every checkpoint timestamp, every block time >= epoch start (below 2^64), every validator count 1..10
 //verif:bound validator set: vote maps of exactly 1..4 keys (quick) / 5 keys (thorough) with arbitrary 2-byte key strings and arbitrary uint64 tallies, every status; k <= 3 (quick) / 4 (thorough) additionally under every map iteration order; truncation: 11 and 12 qualifying keys whose tallies are arbitrary but listed in strictly descending, strictly ascending or all-equal order
-//verif:bound schedule: GetValidator for vote maps of 1..3 keys (thorough 4) and every block time >= epoch start
+//verif:bound schedule: GetValidator for vote maps of 1..3 keys and every block time >= epoch start
 //verif:bound tally: blocks of 1..2 (thorough 3) transactions, each with a spend input, a plain output, at most one veto input and at most one vote output over 2 candidate keys (vetoes are applied before the votes of the same transaction), arbitrary amounts below 2^62, arbitrary prior tallies below 2^62
 //verif:assume mainnet parameters (BlockTimeInterval 6000 ms, MinValidatorVoteNum 1e14, 10 validators, the mainnet federation key)
 //verif:assume checkpoint timestamp + BlockTimeInterval does not wrap (timestamps are milliseconds since 1970)
 //verif:assume map iteration order: insertion order of the engine's map model, plus every permutation for the obligations marked permute
 //verif:outside Chain.GetValidator / casper lookup of the parent checkpoint (store access); more than 12 keys; arbitrary orders of 11+ keys (11! sort paths)
-//verif:obligation fn=VerifC15Order args=1;2;3;4;5;6;7;8;9;10 mode=int validate=30
+//verif:obligation fn=VerifC15Order args=1;2;3;4;5;6;7;8;9;10 mode=int validate=30 timeout=120000
 //verif:obligation fn=VerifC15Validators args=1;2;3;4 loops=5000 validate=12
 //verif:obligation fn=VerifC15Validators args=2;3 loops=5000 permute=true
 //verif:obligation fn=VerifC15Validators args=5 loops=5000 tier=thorough secs=3000
 //verif:obligation fn=VerifC15Validators args=4 loops=5000 permute=true tier=thorough secs=3000
 //verif:obligation fn=VerifC15Truncate args=11;12 loops=5000 validate=10
-//verif:obligation fn=VerifC15Schedule args=1;2;3 mode=int loops=5000 validate=12
-//verif:obligation fn=VerifC15Schedule args=4 mode=int loops=5000 tier=thorough secs=3000
+//verif:obligation fn=VerifC15Schedule args=1;2;3 mode=int loops=5000 validate=12 timeout=120000
 //verif:obligation fn=VerifC15Tally args=1;2 loops=5000 validate=12
 //verif:obligation fn=VerifC15Tally args=3 loops=5000 tier=thorough secs=3000 paths=2000000
 
